@@ -284,4 +284,19 @@ theorem cdReadDoc_add : ∀ (fvs : List (BitVec 32 × StoredValue)) (node ext : 
     rw [hr, List.append_assoc] at this
     rw [this]; rfl
 
+theorem cdAddDocChecked_iff (node : Bytes) (fvs : List (BitVec 32 × StoredValue)) :
+    (cdAddDocChecked node fvs).isSome = true ↔ ∀ fv ∈ fvs, fv.1.toNat < Gen.CD_FIELD_ID_LIMIT := by
+  unfold cdAddDocChecked
+  by_cases h : fvs.all (fun fv => decide (fv.1.toNat < Gen.CD_FIELD_ID_LIMIT)) = true
+  · simp only [h, if_true, Option.isSome_some, true_iff]
+    intro fv hfv
+    have := List.all_eq_true.mp h fv hfv
+    simpa using this
+  · simp only [h, Bool.false_eq_true, if_false, Option.isSome_none, false_iff]
+    intro hall
+    apply h
+    apply List.all_eq_true.mpr
+    intro fv hfv
+    simpa using hall fv hfv
+
 end TantivyModel.Store
